@@ -2,6 +2,7 @@ package main
 
 import (
 	"fmt"
+	"regexp"
 	"go/constant"
 	"go/types"
 	"sort"
@@ -203,6 +204,14 @@ func (vc *VC) fresh(prefix, sort string) Term {
 	return n
 }
 
+// freshAlways: a fresh symbol even inside a quantified specification (the symbol does not depend on bound variables).
+func (vc *VC) freshAlways(prefix, sort string) Term {
+	save := vc.noname
+	vc.noname = 0
+	defer func() { vc.noname = save }()
+	return vc.fresh(prefix, sort)
+}
+
 // name introduces a constant equal to t (keeps terms small, gives models names).
 func (vc *VC) name(prefix, sort string, t Term) Term {
 	if vc.noname > 0 {
@@ -251,8 +260,15 @@ func (vc *VC) strLit(s string) Term {
 	vc.strLits[s] = n
 	vc.strOrder = append(vc.strOrder, s)
 	vc.decls = append(vc.decls, fmt.Sprintf("(declare-const %s Str)", n))
+	if m := pctRe.FindStringSubmatch(s); m != nil {
+		vc.decl("fn:pct_ok", "(declare-fun pct_ok (Str) Bool)")
+		vc.decl("fn:pct_val", "(declare-fun pct_val (Str) Int)")
+		vc.decls = append(vc.decls, fmt.Sprintf("(assert (and (pct_ok %s) (= (pct_val %s) %s)))", n, n, m[1]))
+	}
 	return n
 }
+
+var pctRe = regexp.MustCompile(`^([0-9]{1,3})%$`)
 
 func sanitizeLit(s string) string {
 	var b strings.Builder
